@@ -35,10 +35,18 @@ class Unit:
         self.preamble = open(os.path.join(self.dir, "preamble.rs")).read()
         # `include`: other units whose preamble, constants, mirror checks, rules and contracted functions
         # are emitted in front of this unit's (their obligations are re-discharged here, not assumed)
-        for inc in reversed(self.cfg.get("include", [])):
+        def closure(names, seen):
+            out = []
+            for inc in names:
+                if inc in seen:
+                    continue
+                seen.add(inc)
+                with open(os.path.join(VERIF, "units", inc, "contracts.toml"), "rb") as f:
+                    ic = tomllib.load(f)
+                out += closure(ic.get("include", []), seen) + [(inc, ic)]
+            return out
+        for inc, ic in reversed(closure(self.cfg.get("include", []), {name})):
             d = os.path.join(VERIF, "units", inc)
-            with open(os.path.join(d, "contracts.toml"), "rb") as f:
-                ic = tomllib.load(f)
             self.preamble = open(os.path.join(d, "preamble.rs")).read() + "\n" + self.preamble
             for key in ("struct_check", "const", "rule", "fn"):
                 self.cfg[key] = ic.get(key, []) + self.cfg.get(key, [])
